@@ -58,7 +58,9 @@ def offset_family(rng, n, nb, fam, amp):
             # rows with exactly zero, whole-cell and fractional displacement side by side (a zero row
             # right after a fractional one exercises per-row scratch state in the table builder)
             row = [rng.choice([0.0, 0.0, float(rng.randint(-int(amp), int(amp))), f32(rng.uniform(-amp, amp)),
-                               f32(rng.uniform(-amp, amp))]) for _ in range(n)]
+                               f32(rng.uniform(-amp, amp)),
+                               # displacements far below one cell (a wake kick of one step): they must still be interpolated
+                               f32(rng.choice([1e-4, -1e-4, 5e-4, -7e-4, 3e-6]))]) for _ in range(n)]
         elif fam == "frac":
             row = [f32(rng.uniform(-amp, amp)) for _ in range(n)]
         elif fam == "affine":
